@@ -358,6 +358,10 @@ def failure_of(v):
     k = v.get("key", "failure")
     if k.startswith("timeout"):
         return "timeout"
+    if k.startswith("crash:") and "verif memory limit exceeded" in k:
+        # a computation that never finishes either runs into the deadline or, on a fast machine, into the worker's
+        # heap watchdog first: the same observation ("does not return"), so the same key
+        return "timeout"
     if k.startswith("crash:"):
         return k
     return k.split(":")[0]
